@@ -388,7 +388,7 @@ pub fn dist_cases(r: &mut Rng, exhaustive_len: usize, random_n: usize) -> Vec<Ca
     // exact fit: words whose length is exactly (or one off) the current matrix dimension minus the two border
     // rows, on a fresh instance and after each of several growth steps (the dimension is tracked with the source's
     // growth rule; the observation line carries the real dimension, so a wrong guess shows up as a divergence)
-    for i in 0..(random_n / 60).max(2).min(12) {
+    for i in 0..(random_n / 60).max(4).min(12) {
         let mut ops = vec![];
         let mut size = 22usize;
         let k = r.range(2, DSYMS.len());
@@ -400,9 +400,10 @@ pub fn dist_cases(r: &mut Rng, exhaustive_len: usize, random_n: usize) -> Vec<Ca
                 let (a, b) = (word(r, la), word(r, lb));
                 ops.push(Op::Dist(a.clone(), cls(&a), b.clone(), cls(&b)));
             }
-            let n = fit + 1 + r.below(6);
+            // the first growth of half of the cases is by exactly one character beyond the fit (either side)
+            let n = if i % 2 == 0 { fit + 1 } else { fit + 1 + r.below(6) };
             let small = r.range(0, 6);
-            let (a, b) = if r.chance(1, 2) { (word(r, n), word(r, small)) } else { (word(r, small), word(r, n)) };
+            let (a, b) = if (i / 2) % 2 == 0 { (word(r, n), word(r, small)) } else { (word(r, small), word(r, n)) };
             ops.push(Op::Dist(a.clone(), cls(&a), b.clone(), cls(&b)));
             size = (n + 2) + (n + 2) / 2;
             if size > 130 { break; }
